@@ -36,6 +36,9 @@ class Unsupported(Exception):
     pass
 
 
+SAME_MODULE_PUBLIC_HELPERS = True
+
+
 def is_private(name: str) -> bool:
     return name.startswith("_") and not (name.startswith("__") and name.endswith("__"))
 
@@ -231,9 +234,11 @@ class Inliner:
                     callee = FuncInfo(nd.name, f"{fi.qualname}.<locals>.{nd.name}", fi.module, nd, None)
                     self.fi_of_node[id(nd)] = callee
                 closure = True
-            elif is_private(f.id):
+            else:
                 r = self.prog.resolve_name(fi.module, f.id)
-                if r and r[0] == "func":
+                # private helpers of the package, and helper functions that live in the caller's own module
+                if r and r[0] == "func" and (is_private(f.id) or (r[1].module is fi.module and r[1].cls is None
+                                                                   and SAME_MODULE_PUBLIC_HELPERS)):
                     callee = r[1]
         if callee is None or callee.node is fi.node:
             return None
